@@ -1,10 +1,12 @@
 #!/usr/bin/env python3
 """Copies finished seeds from /tmp/mut/<ID>/_seed/<v> into /verif/seeded/<ID>_<v> (with the checks to run)."""
-import os, json, shutil, glob
+import os, json, shutil, glob, sys
+only=set(sys.argv[1:])  # optional: property ids whose agents have finished
 extra = {"C02":"C02 C06","C06":"C06 C17 C19","C07":"C07 C16 C19","C15":"C15 C06 C19","C17":"C17 C06 C19","C18":"C18 C06 C19","C19":"C19 C06 C07","C16":"C16 C07","C04":"C04 C08","C11":"C11 C06","C08":"C08 C16","C10":"C10 C07","C05":"C05 C12","C09":"C09","C13":"C13","C14":"C14","C12":"C12","C01":"C01","C03":"C03","C20":"C20"}
 ready=[]
 for d in sorted(glob.glob('/tmp/mut/C*/_seed/[a-z]')):
     pid=d.split('/')[3]; var=d[-1]
+    if only and pid not in only: continue
     if not (os.path.exists(d+'/meta.json') and os.path.exists(d+'/patch.diff') and os.path.exists(d+'/demo_test.go')): continue
     dst=f'/verif/seeded/{pid}_{var}'
     if os.path.exists(dst+'/patch.diff'): continue
